@@ -433,10 +433,11 @@ theorem step_inv {n : Nat} {σ : St} {s : Sid} (a : Act) (hI : Inv n σ) (hs : s
   have hb := ensureTxn_spec hI hs hact
   cases a with
   | read o =>
+    dsimp only
     cases hseen : (σ.sess s).seen o with
     | some v => exact hI
     | none =>
-      show Inv n (if (σ.sess s).immediate = true then _ else _).1
+      dsimp only
       by_cases himm : (σ.sess s).immediate = true
       · rw [if_pos himm]
         cases hE : ensureTxn n σ s with
@@ -445,71 +446,72 @@ theorem step_inv {n : Nat} {σ : St} {s : Sid} (a : Act) (hI : Inv n σ) (hs : s
         | ok σ' =>
           rw [hE] at hb
           obtain ⟨hI', hdb, hss, _⟩ := hb
+          dsimp only
           have hseen' : (σ'.sess s).seen o = none := by rw [hss]; exact hseen
           have hin' : (σ'.sess s).inTxn = true := by rw [hss]
           have hov := ownView_eq_db (hI'.sok s) hseen'
           have := sessOk_load o (hI'.sok s) hseen' (fun _ => hin')
-          simp only [hin', if_true] at this
-          show Inv n (setSess σ' s _)
+          rw [if_pos hin'] at this
           rw [hov]
           exact inv_setSess hI' rfl this
       · rw [if_neg himm]
         have hov := ownView_eq_db (hI.sok s) hseen
         have := sessOk_load o (hI.sok s) hseen (fun h => absurd h himm)
-        show Inv n (setSess σ s _)
+        dsimp only
         rw [hov]
         exact inv_setSess hI rfl this
   | lockRead o =>
+    dsimp only
     cases hE : ensureTxn n σ s with
     | blocked σ' => rw [hE] at hb; exact hb.1
     | busy σ' => rw [hE] at hb; exact hb.1
     | ok σ' =>
       rw [hE] at hb
       obtain ⟨hI', hdb, hss, _⟩ := hb
+      dsimp only
       have hin' : (σ'.sess s).inTxn = true := by rw [hss]
       cases hseen : (σ'.sess s).seen o with
       | none =>
+        dsimp only
         have hov := ownView_eq_db (hI'.sok s) hseen
-        show Inv n (setSess σ' s _)
         rw [hov]
         exact inv_setSess hI' rfl (sessOk_lockNew o (hI'.sok s) hin' hseen)
       | some r =>
-        show Inv n (if _ then _ else _).1
+        dsimp only
         split
         · exact inv_fail s hI'
         · rename_i hc
-          show Inv n (setSess σ' s _)
           have hsame : (σ'.sess s).pend o = none → r = σ'.db o := by
             intro hp
             simp only [hp, Option.isNone_none, Bool.true_and, ownView, Option.getD_none, ne_eq, decide_not,
-              Bool.not_eq_eq_eq_not, Bool.not_true, decide_eq_false_iff_not, not_not] at hc
-            exact hc
+              Bool.not_eq_eq_eq_not, Bool.not_true, decide_eq_false_iff_not] at hc
+            exact Classical.not_not.mp hc
           exact inv_setSess hI' rfl (sessOk_lockSeen o r (hI'.sok s) hin' hseen hsame)
   | update o v =>
+    dsimp only
     cases hseen : (σ.sess s).seen o with
     | none => exact hI
     | some r =>
+      dsimp only
       cases hE : ensureTxn n σ s with
       | blocked σ' => rw [hE] at hb; exact hb.1
       | busy σ' => rw [hE] at hb; exact hb.1
       | ok σ' =>
         rw [hE] at hb
         obtain ⟨hI', hdb, hss, _⟩ := hb
+        dsimp only
         have hin' : (σ'.sess s).inTxn = true := by rw [hss]
         have hseen' : (σ'.sess s).seen o = some r := by rw [hss]; exact hseen
-        show Inv n (if _ then _ else _).1
         split
         · exact inv_fail s hI'
         · rename_i hc
-          show Inv n (setSess σ' s _)
-          exact inv_setSess hI' rfl (sessOk_update o r v (hI'.sok s) hin' hseen' (by simpa [ownView] using hc))
+          exact inv_setSess hI' rfl (sessOk_update o r v (hI'.sok s) hin' hseen' (Bool.eq_false_iff.mpr hc))
   | commit =>
-    show Inv n (if (σ.sess s).inTxn = true then _ else _).1
+    dsimp only
     by_cases hin : (σ.sess s).inTxn = true
     · rw [if_pos hin]; exact inv_commit hI hin
     · rw [if_neg hin]
       have hin' : (σ.sess s).inTxn = false := by simpa using hin
-      show Inv n (setSess σ s _)
       have hso := hI.sok s
       refine inv_setSess hI rfl ⟨?_, ?_, ?_, ?_, hso.bas, hso.wf, hso.pseen⟩
       · intro _ o'; have := hso.clean hin' o'; simp [this]
